@@ -17,7 +17,7 @@ open AslModel.Ini hiding Bytes
 open AslModel.Csv (Cell Dec parseRow writeRow isNumber atofDec)
 open C18Spec hiding Bytes
 open AslProofs.Ini (Op run setsOf path AnyOp anyRun SameLine Pointwise isEntryLine)
-open AslProofs.Csv (cellText CellOK numValue decValue ColOK StrOK NumText CellWF expected)
+open AslProofs.Csv (cellText CellOK numValue decValue ColOK StrOK NumText CellWF expected CellWFsemi)
 
 abbrev Bytes := List UInt8
 
@@ -185,16 +185,33 @@ example : parseRow 44 (writeRow 44 34 [.str [104, 34, 105, 44], .str [], .str [9
     `csv_number_exact_Q`). -/
 theorem csv_table_roundtrip (cols : List Bytes) (hne : cols ≠ []) (hcols : ∀ n ∈ cols, ColOK n)
     (rows : List (List Cell)) (hrows : ∀ r ∈ rows, r.length = cols.length ∧ ∀ c ∈ r, CellWF c) :
-    Csv.readTable (Csv.writeItems cols (rows.flatten.map .cell)) = { columns := cols, rows := rows.map (·.map expected) } ∧
-    Csv.readTable (Csv.writeItems cols (rows.map .arr)) = { columns := cols, rows := rows.map (·.map expected) } := by
+    Csv.readTable (Csv.writeItemsG 44 46 cols (rows.flatten.map .cell)) = { columns := cols, rows := rows.map (·.map expected) } ∧
+    Csv.readTable (Csv.writeItemsG 44 46 cols (rows.map .arr)) = { columns := cols, rows := rows.map (·.map expected) } := by
   have hpos : 0 < cols.length := List.length_pos_iff.mpr hne
   have hrows' : ∀ r ∈ rows, r.length = cols.length ∧ r ≠ [] ∧ ∀ c ∈ r, CellWF c := by
     intro r hr
     obtain ⟨h1, h2⟩ := hrows r hr
     refine ⟨h1, ?_, h2⟩
     intro e; subst e; simp at h1; omega
-  rw [AslProofs.Csv.writeItems_cells, AslProofs.Csv.writeItems_arrays cols rows hrows']
+  rw [AslProofs.Csv.writeItemsG_default, AslProofs.Csv.writeItemsG_default, AslProofs.Csv.writeItems_cells,
+    AslProofs.Csv.writeItems_arrays cols rows hrows']
   exact ⟨AslProofs.Csv.table_roundtrip cols hne hcols rows hrows, AslProofs.Csv.table_roundtrip cols hne hcols rows hrows⟩
+
+/-- **csv_semicolon_row.**  After `setSeparator(';')` (decimal point kept, as the writer does unless `setDecimal` is
+    called) every non-empty row of cells — NUL-free strings without line breaks that spell a number with neither
+    decimal symbol, and number texts — is parsed back cell for cell by the reader's setting for a file whose header
+    contains `;` (separator `;`, decimal symbol `,`): numbers written with `.` are numbers again (cb50e4a; before,
+    `1.5` came back as the string "1.5"). -/
+theorem csv_semicolon_row (c : Cell) (t : List Cell) (hc : CellWFsemi c) (ht : ∀ x ∈ t, CellWFsemi x) :
+    (parseRow 59 (Csv.rowTextG 59 46 (c :: t))).map (Csv.inferCell 44) = (c :: t).map expected :=
+  AslProofs.Csv.row_read_semi c t hc ht
+
+/-- the row `1.5 ; "x;y"` -/
+example : CellWFsemi (.num [49, 46, 53]) ∧ CellWFsemi (.str [120, 59, 121]) := by
+  refine ⟨⟨⟨false, [49], some [53], none⟩, ⟨?_, ?_, by decide, ?_⟩, by decide⟩, ⟨by decide, by decide, by decide, by decide, by decide⟩, by decide⟩
+  · intro c hc; simp at hc; subst hc; decide
+  · intro c hc; simp [Num.fracDigits] at hc; subst hc; decide
+  · intro e sgn ed h; simp at h
 
 /-- the column name `x` and the string cell `a,"b` meet the hypotheses -/
 example : ColOK [120] ∧ CellWF (.str [97, 44, 34, 98]) := by
